@@ -139,8 +139,9 @@ type Sim struct {
 // TreeCache mirrors a few coordination keys so that world hooks (which hold the world mutex)
 // can read them without touching the fake ZooKeeper's mutex.
 type TreeCache struct {
-	mu    sync.Mutex
-	Nodes map[string]string // path below NS -> data, for master, active_nodes, switch, maintenance, recovery/*, optimization_nodes/*, last_switch, last_rejected_switch
+	mu         sync.Mutex
+	EverMaster map[string]bool   // hosts that were the recorded master at some time
+	Nodes      map[string]string // path below NS -> data, for master, active_nodes, switch, maintenance, recovery/*, optimization_nodes/*, last_switch, last_rejected_switch
 }
 
 func (s *Sim) cacheUpdate(r fakezk.Rec) {
@@ -156,6 +157,15 @@ func (s *Sim) cacheUpdate(r fakezk.Rec) {
 	switch r.Op {
 	case "create", "set":
 		s.Cache.Nodes[p] = r.Data
+		if p == "master" {
+			var m string
+			if json.Unmarshal([]byte(r.Data), &m) == nil && m != "" {
+				if s.Cache.EverMaster == nil {
+					s.Cache.EverMaster = map[string]bool{}
+				}
+				s.Cache.EverMaster[m] = true
+			}
+		}
 	case "delete", "expire-delete":
 		delete(s.Cache.Nodes, p)
 	}
@@ -181,6 +191,13 @@ func (s *Sim) CachedChildren(prefix string) []string {
 	}
 	sort.Strings(out)
 	return out
+}
+
+// WasEverMaster reports whether host was the recorded master at some time of the scenario.
+func (s *Sim) WasEverMaster(host string) bool {
+	s.Cache.mu.Lock()
+	defer s.Cache.mu.Unlock()
+	return s.Cache.EverMaster[host]
 }
 
 // CachedMaster returns the recorded master from the cache.
@@ -640,6 +657,13 @@ func (s *Sim) pollFiles() {
 			}
 		}
 	}
+}
+
+// SetROFS makes the filesystem of host read-only (or writable again): the daemon's test file says so
+// and the server can no longer commit anything.
+func (s *Sim) SetROFS(host string, on bool) {
+	_ = os.WriteFile(filepath.Join(s.Dir, host+".ro"), []byte(fmt.Sprint(on)), 0o644)
+	s.W.Manual(host, fmt.Sprintf("filesystem read-only=%v", on), func(x *world.Server) { x.FSReadOnly = on })
 }
 
 // Master returns the recorded master ("" if none).
